@@ -1339,7 +1339,9 @@ func (alienCodec) Name() string { return "alien" }
 // is still open.
 func (e *liveEnv) liveRejected(r *h.Run, fam, kind, proto string, h2 bool) {
 	e.liveRejectedFor(r, fam, kind, proto, h2, "codec")
-	if kind == "bidi" || r.Thorough() {
+	// (not for unary calls: the library clears and rewrites the timeout header of a *Request it
+	// sends, so a value set by hand never reaches the wire there)
+	if kind == "bidi" || (r.Thorough() && kind != "unary") {
 		e.liveRejectedFor(r, fam, kind, proto, h2, "timeout")
 	}
 }
